@@ -583,3 +583,11 @@ B("C17.trailing_blanks", ["C17", "C15"], CB, "bounded_trailing_blanks", "From<&s
 B("A3.spans_are_components", ["C10", "C04"], SPAN, "bounded_spans_are_components", "From<&CellBuffer> for Vec<Span> (Span::new / merge_recursive / can_merge)",
   "the spans are exactly the connected components of the occupied cells under 8-neighbour adjacency: a partition, nothing joined across a blank column or row",
   "exhaustive: all 4096 occupancy patterns of a 4 x 3 grid")
+
+CONT = "buffer/cell_buffer/contacts.rs"
+B("G1.contacts_merge", ["C05", "C03", "C10", "C04"], CONT, "bounded_contacts_merge", "Contacts::merge / is_contacting / is_contacting_frag",
+  "merge = concatenation (every fragment once, in order) exactly when some fragment of one group contacts some fragment of the other",
+  "all 6561 pairs of two-fragment groups from a pool of 9 fragment spans (touching / crossing / far lines, a circle, texts)")
+B("G2.endorse_rects_partition", ["C05", "C04", "C03"], CONT, "bounded_endorse_rects_partition", "Contacts::endorse_rects / endorse_rect / span",
+  "every group is either replaced by its rect (span = the group's cells) or kept unchanged and in order: a partition",
+  "all 31 non-empty selections of 5 groups (a rect, an open outline, five lines, a text group, a single line), both orders")
